@@ -7,7 +7,7 @@
 (*   [text, lower, sep, nan]  (sep/nan: the two Token hints).              *)
 (* Thresholds and values are decimal strings (Num).                        *)
 (***************************************************************************)
-EXTENDS Lang
+EXTENDS Lang, Integers
 
 \* Negative controls: defects that were found on the pinned tree or seeded by independent reviewers, kept as
 \* switchable mutants of the model (overridden to TRUE by the MC_Scanner_*_mut_* configurations with
@@ -87,6 +87,23 @@ IterRun(L, s, stream, pulled, thr, linking, acc) ==
   ELSE LET f == Finalize(L, s, thr) IN
        IF f.tracker.matches # <<>> THEN IterRun(L, f, stream, pulled, thr, linking, acc) ELSE acc
 Iter(L, stream, thr, linking) == IterRun(L, NewScanner, stream, 0, thr, linking, <<>>)
+
+
+(* ---- S8: NumTracker::replace on a token vector (replace_numbers_in_stream) ---- *)
+\* the occurrences are spliced in REVERSE order: drain(start..end) then insert(start), so that earlier spans keep their indices.
+\* items: [id (index of a kept input token, -1 for a replacement), t (text), from (ids handed to the Replace constructor)]
+RECURSIVE SpliceRev(_, _, _)
+SpliceRev(items, occs, k) ==
+  IF k = 0 THEN items
+  ELSE LET o == occs[k]
+           taken == SubSeq(items, o.s + 1, o.e)
+           repl == [id |-> 0 - 1, t |-> o.t, from |-> [j \in 1..Len(taken) |-> taken[j].id]]
+       IN SpliceRev(SubSeq(items, 1, o.s) \o <<repl>> \o SubSeq(items, o.e + 1, Len(items)), occs, k - 1)
+ReplaceInStream(L, stream, thr, linking) ==
+  LET occs == Batch(L, stream, thr, linking)
+      items == [i \in 1..Len(stream) |-> [id |-> i - 1, t |-> stream[i].text, from |-> <<>>]]
+  IN [out |-> SpliceRev(items, occs, Len(occs)),
+      calls |-> [k \in 1..Len(occs) |-> [data |-> occs[Len(occs) + 1 - k].t]]]
 
 \* tokens from plain texts (no hints)
 Tok(text) == [text |-> text, lower |-> Lower(text), sep |-> FALSE, nan |-> FALSE]
